@@ -644,6 +644,9 @@ pub fn opts(idx: u64, rng: &mut Rng) -> ScenarioOpts {
         // half of the priced cases and a fifth of the others: change/refund of the
         // configured base asset, not of AssetId::BASE
         vary_params: if idx % 6 == 0 || idx % 5 == 2 { 1000 } else { 0 },
+        // transactions without any base asset input (fee limit 0), often with a base-asset
+        // change output all the same
+        no_base_input: if idx % 7 == 1 { 1000 } else { 0 },
         ..Default::default()
     }
 }
